@@ -30,7 +30,7 @@ theorem C12_sized_array_dynamic_rejected (all before r : List Member) (n s : Str
 /-- any array of an unlimited type -/
 theorem C12_array_unlimited_rejected (all before r : List Member) (n s : String) (t : Ty)
     (h : (PL.nodeTy t).kind = 2) :
-    frontMs all (.mk n t (.dyn s) :: r) before = false ∧ frontMs all (.mk n t .greedy :: r) before = false := by
+    frontMs all (.mk n t (.dyn s sh) :: r) before = false ∧ frontMs all (.mk n t .greedy :: r) before = false := by
   simp [frontMs, isArrayKind, sizeOf?, isOptional, h]
 
 /-- a greedy array or an unlimited struct that is not the last field -/
@@ -40,7 +40,7 @@ theorem C12_unlimited_not_last_rejected (all before : List Member) (n : String) 
 
 /-- an array whose sizer does not precede it -/
 theorem C12_sizer_missing_rejected (all r : List Member) (n s : String) (t : Ty) :
-    frontMs all (.mk n t (.dyn s) :: r) [] = false := by
+    frontMs all (.mk n t (.dyn s sh) :: r) [] = false := by
   simp [frontMs, MKind.sizer?]
 
 /-- a zero array size -/
